@@ -289,7 +289,7 @@ func (c *vpC38Case) run() ([]string, string) {
 		buf = buf[:runtime.Stack(buf, true)]
 		var stacks []string
 		for _, g := range strings.Split(string(buf), "\n\n") {
-			if strings.Contains(g, "pipelineConnClient") {
+			if strings.Contains(g, "fasthttp.") && !strings.Contains(g, "vpC04Beat") && !strings.Contains(g, "vpC04Origin") {
 				stacks = append(stacks, g)
 			}
 		}
